@@ -237,9 +237,11 @@ fn gen_sys(rng: &mut Rng, out: &mut Vec<String>, count: usize) {
         let n = 1 + rng.below(6);
         let tol = *rng.pick(&[1e-10, 1e-8, 1e-6, 1e-4]);
         let delta = *rng.pick(&[1e-8, 1e-6, 1.0 / 1048576.0]);
-        let max_iter = if i % 6 == 0 { rng.below(5) } else { 20 + rng.below(31) };
-        let cplx = i % 4 == 3;
-        let mode_exact = i % 2 == 1;
+        // the three choices are drawn independently (small budgets must meet every one of the four variants)
+        let _ = i;
+        let max_iter = if rng.chance(25) { rng.below(5) } else { 20 + rng.below(31) };
+        let cplx = rng.chance(30);
+        let mode_exact = rng.chance(50);
         let emit = |tag: &str, guess: String, root: String, f: String, jac: String, fam: &str| format!("newton_v {} {} {} {} {} {} {} {} {}", tag, guess, tol.wr(), delta.wr(), max_iter, fam, root, f, if mode_exact { format!("exact {}", jac) } else { "fd".into() });
         if !cplx {
             let root: Vec<f64> = (0..n).map(|_| rng.range(-4, 4) as f64 / 4.0).collect();
